@@ -538,6 +538,19 @@ class Handler:
         if isinstance(target, (ast.Subscript, ast.Attribute)):
             base = target.value
             if isinstance(base, ast.Name) and w.get(base.id, OTHER)[0] == "list":
+                src = getattr(self, "_rhs", None)
+                if isinstance(src, ast.Name):
+                    defs = [s_.value for s_ in ast.walk(self.f.node) if isinstance(s_, ast.Assign)
+                            and any(isinstance(t_, ast.Name) and t_.id == src.id for t_ in s_.targets)]
+                    src = defs[0] if len(defs) == 1 else src
+                if isinstance(src, ast.Call) and (dotted(src.func) or "").split(".")[-1][:1].islower() \
+                        and any(isinstance(y, ast.Subscript) and dotted(y.value) == base.id
+                                for a_ in src.args for y in ast.walk(a_)):
+                    # an element is replaced by what a helper makes of it and its neighbour
+                    # (two conditionals merged late, say): what the helper builds is not
+                    # decided by this analysis
+                    raise AnalysisError(f"{self.f.qualname}: an element of '{base.id}' is replaced by "
+                                        f"{norm(src)[:50]}; not decided")
                 self.bad.append((target, f"children list '{base.id}' is changed in place"))
                 return w.set(base.id, ("list", "dirty", None, False))
         return w
@@ -550,6 +563,7 @@ class Handler:
             return [w.set(a.targets[0].id, ("state", a.value.attr))]
         if isinstance(a, ast.Assign):
             outs = []
+            self._rhs = a.value
             for v, w2 in self.ev(a.value, w):
                 if v[0] == "elem":
                     v = self._elem_value(v)
